@@ -216,10 +216,31 @@ CHECKS = {
                 '(date-only bounds gain 00:00:00 on the first cycle).',
         'design_ref': 'DESIGN.md 4.4',
     },
+    'C17': {
+        'technique': TECH + 'the CLI run as a simulated process (argv, '
+                     'stdin, stdout, exit status, cwd owned by the harness) '
+                     'next to the library on the same files; the property\'s '
+                     'own fault list (missing input, missing constraints, '
+                     'unknown flag, contradictory flags) x {output path '
+                     'absent, stale file present}',
+        'text': 'Seeded exploration with fault injection at the process '
+                'boundary. Normal invocations are compared differentially '
+                'with the library on load_df(path) (constraints apart from '
+                'creation metadata, pass/failure counts from stdout and the '
+                'returned object, detection output file bytes / frames); '
+                'faulted invocations must exit non-zero and must not create '
+                'or rewrite an output file (audit of the whole cwd).',
+        'note': 'CLI executed in-process through console.main_with_argv '
+                '(exit status = SystemExit code, 1 for an escaping '
+                'exception); tools/cli_fidelity.py replays a sample through '
+                'a real subprocess. A stale output that a failed run never '
+                'reached is counted, not failed.',
+        'design_ref': 'DESIGN.md 4.4',
+    },
 }
 
 NOT_BUILT = {p: 'claimed in DESIGN.md; machine under construction, no check registered yet'
-             for p in ('C08', 'C17')}
+             for p in ('C08',)}
 
 NOT_APPLICABLE = {
     'C02': 'pure function of (frame, constraint set, epsilon, type_checking): '
